@@ -708,6 +708,58 @@ def run(prog, rep, tier):
     if n39 == 0:
         raise CheckerError("R3.9: no SyslogProcessor method uses mtime (anchor missing)")
 
+    # ------------------------------------------------------------ R3.11 an empty selection is not an error
+    # "An empty selection prints nothing and is not an error": processing_loop ends with a failure status
+    # when any file's Summary carries an error.  In every worker, the arm for "nothing lies within the
+    # datetime window" (variants named ...InDtRange / ...WithinDtFilters) has to build its failed-summary
+    # with error None.
+    import re as _re3
+    R311 = rep.rule("R3.11", "the 'nothing within the window' arms of the workers report no error (the exit status stays 0)")
+    n311 = 0
+    dt_arms = 0
+    for p_ in sorted(prog.facts.bodies):
+        if not p_.startswith("s4::exec_") or "{closure" in p_:
+            continue
+        wb_ = prog.body(p_)
+        for c in wb_.live_calls():
+            if not c.d.endswith("Summary::new_failed"):
+                continue
+            n311 += 1
+            ctl = None
+            for sbb in sorted(wb_.live):
+                t = wb_.term(sbb)
+                if t[0] == "switch" and sbb != c.bb and wb_.dominates(sbb, c.bb):
+                    for v_, tb_ in t[2]:
+                        if wb_.pred[tb_] == [sbb] and wb_.dominates(tb_, c.bb):
+                            if ctl is None or wb_.dominates(ctl[0], sbb):
+                                ctl = (sbb, int(v_), t[1])
+            vname = None
+            if ctl is not None:
+                for o2 in wb_.origins(ctl[2]):
+                    if o2[0] == "discr":
+                        st2 = wb_.stmts(o2[1])[o2[2]]
+                        ty_ = (wb_.local_ty(st2[2][1][0]) or "").split("<")[0].lstrip("&").strip()
+                        adt_ = prog.facts.adts.get(ty_)
+                        if adt_:
+                            for va_ in adt_.get("variants", []):
+                                if str(va_.get("discr")) == str(ctl[1]):
+                                    vname = va_["name"]
+            errs = set()
+            for o_ in wb_.origins(c.args[-1]):
+                if o_[0] == "agg":
+                    k_ = wb_.stmts(o_[1])[o_[2]][2][1]
+                    errs.add(k_.get("variant") if isinstance(k_, dict) else "?")
+                else:
+                    errs.add(o_[0])
+            is_dt = bool(vname and _re3.search(r"(InDtRange|WithinDtFilters|DtFilter|OutsideDt)", vname))
+            dt_arms += 1 if is_dt else 0
+            rep.examined(R311, "%s|new_failed@%s" % (p_, vname or "?"), sample={"worker": p_.split("::")[-1], "arm": vname, "error_argument": sorted(map(str, errs)), "is_empty_selection_arm": is_dt})
+            if is_dt and errs != {"None"}:
+                rep.violation(R311, "%s|new_failed@%s|error" % (p_, vname), "%s: the arm for %s builds its summary with an error (%s); processing_loop turns any summary error into exit status 1, "
+                              "so a window that selects none of this file's records makes the whole run fail although nothing went wrong" % (p_.split("::")[-1], vname, sorted(map(str, errs))))
+    if n311 < 6 or dt_arms < 1:
+        raise CheckerError("R3.11: %d failed-summary sites, %d empty-selection arms (expected >= 6, >= 1)" % (n311, dt_arms))
+
     # ------------------------------------------------------------ R3.6 the lower-bound search uses the ordering only
     # find_sysline_at_datetime_filter_binary_search must return the FIRST message at or after the bound.
     # With several messages at exactly the bound, a probe that lands on one of them is not the answer
